@@ -20,8 +20,8 @@ def sh(cmd, **kw):
 
 demo = next((p for p in sorted(src.iterdir()) if p.name.startswith("demo")), None)
 first = demo.read_text().splitlines()[0]
-m = re.search(r"(?:build\+run|build and run|run)\s*:\s*(.*?)\s*\*/\s*$", first) or re.search(r"#\s*(?:build\+run|run)\s*:\s*(.*)$", first)
-cmd = m.group(1) if m else ("bash " + str(demo))
+m = re.search(r"(?:build\+run|build and run|run)\s*:\s*(.*)$", first)
+cmd = re.sub(r"\s*\*/\s*$", "", m.group(1)).strip() if m else ("bash " + str(demo))
 sh("git checkout -- . && git clean -fdq -e out", cwd=wt)
 r0 = sh(cmd, cwd=wt)
 a = sh(f"git apply {src}/patch.diff", cwd=wt)
